@@ -162,3 +162,26 @@ seed('S-c11d', 'C11', 'ast.rs parse_regex_3: `#` parsed right-associatively (a #
 seed('S-c18c', 'C18', 'char_range_gen: the scan is split into two loops over the blocks below and above the surrogates, an open range is closed at the end of each block',
      'a predicate true on both U+D7FF and U+E000: two adjacent ranges instead of one (not maximal)', ['C18'], [],
      'first run inconclusive: the cut-point harness knew one loop. It now handles every context in which the scan loop is entered with a fresh iterator (found by running on from the exit of the previous one; the outer array loop is unrolled), takes the iterator local from the loop head, and havocs exactly the user variables some path of one iteration changes. A correct version of the same restructuring verifies (exit 0)')
+# ---- round 8
+seed('S-c03e', 'C03', 'a shared Lexer::error(kind) helper that resets __state/__initial_state to 0 is also used for the Err of a fallible action',
+     'a `=?` rule that returns Err while a rule set other than Init is active (or after it switched), and more input after the error: the lexer falls back to Init', ['C03'], [],
+     'first run missed it: the C03 family had no fallible rules. Added multi-rule-set definitions with fallible kinds (a user error is not a failure of the lexer)')
+seed('S-c05e', 'C05', 'rule-set switching moved into a runtime helper that also clears __done and the saved match',
+     'a `$` rule whose action switches: end of input is acted on again in the new rule set (or loops forever when two `$` rules switch to each other)', ['C05'], [],
+     'first run crashed: the natively compiled lexer of a generated definition did not return and the driver timeout was not handled. A native hang is now found line by line, reported as a progress/end-of-input violation with the driver line as replay; the symbolic part reports the done flag and the extra items')
+seed('S-c06e', 'C06', 'codegen.rs generate_semantic_action_call: reset_match() after Return moved into the Ok arm (same mistake as S-c10b, asked for C06)',
+     'a fallible rule that returns Err directly followed by the next lexeme: the next token starts at the failed lexeme', ['C06'], [],
+     'first run missed it (no fallible rules in the location family); added')
+seed('S-c07d', 'C07', 'dfa.rs State::has_no_transitions ignores the end-of-input transition (same change as S-c05c, asked for C07)',
+     'a rule ending in `$` whose state before `$` has no other transitions: InvalidToken instead of the match / the Custom error', ['C07'], [], '')
+seed('S-c09e', 'C09', 'dfa.rs is_accepting_state narrowed to accepts without right context (same change as S-c04d, asked for C09)',
+     'a match saved under a right context, a longer candidate that fails in a state that is then not marked backtrack: the saved match survives the error and is replayed later (more items than characters, out of order)', ['C09'], [],
+     'first run missed it: the surviving saved match was only examined when the returned item agreed with the reference. It is now also recorded when the item differs; added the context-continuation family (C04, C09)')
+seed('S-c10e', 'C10', 'lexgen_util backtrack(): `__done = false` hoisted above the match (same change as S-c05, asked for C10)',
+     'a failure through backtrack() with nothing saved on the last character and a `$` rule in Init: its action runs after the error although the stream had ended', ['C10'], [],
+     'first run missed it (no logging `$` rule next to the failing shape in the C10 family); added')
+seed('S-c13d', 'C13', 'codegen.rs inclusive_range_contains: ranges ending in ASCII are tested on `x as u8`',
+     'a class with an ASCII range emitted as a guard (<= 9 ranges, single-character rule, right context) and a character >= U+0100 whose low byte lies in the range', ['C13'], [], 'MIR cast char -> u8 is a truncation in the executor; 3 roles')
+seed('S-c14d', 'C14', 'lexgen_util Lexer::peek decodes the lookahead as char::from(first byte of input at the match end) when input is not empty',
+     'a &str lexer, an action that uses peek(), and a non-ASCII character right after the match', ['C14'], [],
+     'first run inconclusive (str::as_bytes, <[u8]>::get, char::from(u8) on the symbolic string had no model); added: the first byte of the character at a boundary offset as a function of the character. Offsets into the whole input are the lexer\'s absolute byte indices (the symbolic start location included), offsets into a suffix view are relative')
